@@ -18,7 +18,7 @@ def run(tier):
                        "(map-valued blocks as maps), re-serialised (byte-identical), serialised twice (deterministic); the specification's "
                        "encoding is parsed and must give the same value, and every accepted input must re-serialise to an accepted encoding "
                        "with the same ID, blocks and payload-last. distinct = distinct abstract bundles.")
-    fams = ["flags", "blocks", "crc", "widths", "payload", "eids", "maps", "mut1"] + (["mut2"] if tier == "thorough" else [])
+    fams = ["flags", "blocks", "crc", "widths", "payload", "eids", "maps", "wide", "mut1"] + (["mut2"] if tier == "thorough" else [])
     cases = generate(chk, fams)
     inp = write_input("c01.ndjson", cases)
     st = run_harness(chk, "round trip", "pkg/bpv7", FILES, "TestVerifC01", env={"VERIF_IN": inp, "VERIF_PAR": 16}, timeout=1500, crash_key="codec/crash")
